@@ -33,6 +33,10 @@ type Hasher interface {
 
 // Initializes a HashMap
 func NewHashMap(size uint64, loadfactor float64) *HashMap {
+	// A map needs at least one bucket: with none, the first lookup or insertion indexes an empty array
+	if size == 0 {
+		size = 1
+	}
 	return &HashMap{
 		mapArray:   make([]Bucket, size),
 		capacity:   size,
